@@ -226,6 +226,13 @@ def points(tier: str) -> List[Dict[str, Any]]:
                     if mode == "sync_close_foreign_loop" and (off // 1000) % 4:
                         continue  # the foreign thread runs an event loop of its own: a quarter of the instants
                     pts.append({"scenario": scenario, "jitter": jitter, "close_at_us": off, "mode": mode})
+    # fault injection: the kernel's send buffer is full (EAGAIN) for the k-th goodbye datagram of the shutdown, or for all of
+    # them; asyncio then holds the datagram in the transport's write buffer until the socket is writable again
+    for scenario, offs2 in (("busy", (1_800_000, 5_000_000, 9_000_000)), ("early", (1_100_000,))):
+        for off in offs2:
+            for mode in ("async_close", "sync_close"):
+                for k in (1, 2, 3, "all"):
+                    pts.append({"scenario": scenario, "jitter": 0.0, "close_at_us": off, "mode": mode, "eagain_bye": k})
     return pts
 
 
@@ -247,6 +254,21 @@ def run_point(p: Dict[str, Any], verbose: bool = False) -> Tuple[Optional[Dict[s
         registered = {i.name.lower(): i for i in zc.registry.async_get_service_infos()}
         reg_descs = [s for s in (S1, S2) if s.name.lower() in registered]
         n_trace = len(w.net.trace)
+        if p.get("eagain_bye"):
+            seen_byes = [0]
+
+            def eagain(data: bytes, want: Any = p["eagain_bye"]) -> bool:
+                try:
+                    m = wire.decode(data)
+                except wire.Reject:
+                    return False
+                if not (m.is_response and any(r[3] == 0 for r in m.answers)):
+                    return False
+                seen_byes[0] += 1
+                return want == "all" or seen_byes[0] == want
+
+            for t in host.transports():
+                t.eagain = eagain
         if p["mode"] == "async_close":
             w.run_coro(azc.async_close(), max_ms=60_000)
         else:
@@ -294,6 +316,10 @@ def run_point(p: Dict[str, Any], verbose: bool = False) -> Tuple[Optional[Dict[s
         if left:
             problems.append(f"registered-during-close: {left[:2]} was last multicast with a positive TTL "
                             f"{last_ttl[left[0]][1] - t_req:.0f} ms after close was requested and never withdrawn")
+        thrown = [d for t in host.transports() for d in t.dropped]
+        if thrown:
+            problems.append(f"goodbye: {len(thrown)} datagram(s) already handed to the socket were thrown away when it was shut "
+                            f"down (unsent data in the transport's write buffer): {[(r[0], r[3]) for r in wire.decode(thrown[0]).records()][:4]}")
         if not all(t.closed for t in host.transports()):
             problems.append("sockets: a transport is still open after close returned")
         # second close: a no-op
